@@ -170,7 +170,6 @@ func runC12(args []string) {
 	env := pipe.Setup()
 	drv := filepath.Join(env.Work, "bin", "c12drv")
 	err := buildOverlayBinary(env, "c12", map[string]string{
-		"internal/kessoku/verif_export.go":  "/verif/overlay/c12/verif_export.go",
 		"internal/kessoku/verifdrv/main.go": "/verif/overlay/c12/main.go",
 	}, "./internal/kessoku/verifdrv", drv)
 	if err != nil {
@@ -180,16 +179,17 @@ func runC12(args []string) {
 	type run struct {
 		depth int
 		alpha string
+		chain int
 	}
-	runs := []run{{3, "full"}, {5, "foo"}}
+	runs := []run{{3, "full", 140}, {5, "foo", 0}, {4, "num", 140}}
 	if rc.Thorough() {
-		runs = []run{{4, "full"}, {7, "foo"}}
+		runs = []run{{4, "full", 300}, {7, "foo", 0}, {5, "num", 300}}
 	}
 	states, transitions := 0, 0
 	var samples []any
 	var runDesc []string
 	for _, r := range runs {
-		out, err := exec.Command(drv, "-depth", fmt.Sprint(r.depth), "-alphabet", r.alpha).Output()
+		out, err := exec.Command(drv, "-depth", fmt.Sprint(r.depth), "-alphabet", r.alpha, "-chain", fmt.Sprint(r.chain)).Output()
 		if err != nil {
 			fmt.Println("EXPLORER-FAILED: c12drv:", err)
 			os.Exit(2)
@@ -202,6 +202,9 @@ func runC12(args []string) {
 		states += o.States
 		transitions += o.Transitions
 		runDesc = append(runDesc, fmt.Sprintf("alphabet %s (%d operations) depth %d: %d states, %d transitions", r.alpha, o.Alphabet, o.Depth, o.States, o.Transitions))
+		if r.chain > 0 {
+			runDesc = append(runDesc, fmt.Sprintf("alphabet %s long chains: every history [p,] o^k, k <= %d, for every operation o and every prefix operation p", r.alpha, r.chain))
+		}
 		for _, v := range o.Violations {
 			kind := "collision"
 			switch {
@@ -307,7 +310,7 @@ func runC12(args []string) {
 		"samples":                       samples,
 		"evaluations":                   transitions + genChecked,
 		"distinct_nontrivial":           states,
-		"rule":                          "explicit-state breadth-first search over request histories of the REAL VarPool (driver compiled into the kessoku module by build overlay, tag verif): operations Reg(b) [what ParseFile does for package-level names], Gen(b), GenType(T), GenChan(T) over adversarial bases (foo, foo0, foo1, fooCh, fooCh0, err, err0, ctx, eg, len, len0, type, string) and types; states deduplicated on (allocator map, issued names, registered names); invariant on every Gen transition: name is no keyword/predeclared identifier, not registered, not issued before. " + strings.Join(runDesc, "; ") + ". Generator level: every E2 program of C04 (adversarial type / package-level / import names x 3 modes) through the real CLI; identifiers declared per generated function scope must avoid keywords, predeclared names and the user's package-level names.",
+		"rule":                          "explicit-state breadth-first search over request histories of the REAL VarPool (driver compiled into the kessoku module by build overlay, tag verif): operations Reg(b) [what ParseFile does for package-level names], Gen(b), GenType(T), GenChan(T) over adversarial bases (foo, foo0, foo1, fooCh, fooCh0, err, err0, ctx, eg, len, len0, type, string; and the bases int, uint, float, complex whose suffixed forms are predeclared) and types; every state is reached by replaying its history on a fresh pool; states deduplicated on (deep reflective dump of the pool, issued names, registered names); invariant on every Gen transition: name is a usable identifier, no keyword / predeclared identifier (go/token, types.Universe - not the repository's own tables), not registered, not issued before. " + strings.Join(runDesc, "; ") + ". Generator level: every E2 program of C04 (adversarial type / package-level / import names x 3 modes) through the real CLI; identifiers declared per generated function scope must avoid keywords, predeclared names and the user's package-level names.",
 		"exhaustive":                    true,
 		"generator_level_programs":      genChecked,
 		"tree_hash":                     env.Hash,
